@@ -100,8 +100,17 @@ impl Judge<'_> {
             return None;
         }
         let m = meter_start(dev);
+        let t0 = std::time::Instant::now();
         let r = guarded(f);
+        let wall = t0.elapsed();
         let (alloc, peak, read) = meter_stop(&m, dev);
+        if self.mode == Mode::Budget && wall.as_secs() >= 10 {
+            // a single call on inputs of at most a few MiB takes milliseconds; 10 s of wall time
+            // (also on a loaded machine) means work that is not bounded by the input size
+            self.ctx.violation(format!("C09/time/{name}"), format!("{name} took {:.1} s on an input of {} bytes: {}", wall.as_secs_f64(), self.l, self.what));
+            self.failed = true;
+            return None;
+        }
         self.ctx.op();
         match r {
             Err(pi) => {
